@@ -334,8 +334,9 @@ struct DirScript {
     names: [[u8; 4]; 4],
     types: [u8; 4],
     calls: u32,
+    filled_window: bool,
 }
-static mut DS: DirScript = DirScript { total: 0, given: 0, names: [[0; 4]; 4], types: [0; 4], calls: 0 };
+static mut DS: DirScript = DirScript { total: 0, given: 0, names: [[0; 4]; 4], types: [0; 4], calls: 0, filled_window: false };
 fn ds() -> &'static mut DirScript {
     unsafe { &mut *core::ptr::addr_of_mut!(DS) }
 }
@@ -361,7 +362,16 @@ fn dents_hook(_k: &mut K, n: usize, a: &[usize; 6]) -> Option<usize> {
             }
             l
         };
-        let reclen = (19 + nlen + 1 + 7) & !7;
+        let mut reclen = (19 + nlen + 1 + 7) & !7;
+        // d_reclen is authoritative and may include padding: the last record of a batch may extend to the very end of
+        // the caller's window (a batch that fills the 512-byte buffer exactly)
+        if i + 1 == batch {
+            let fill_window: bool = kani::any();
+            if fill_window {
+                reclen = cap - off;
+                d.filled_window = true;
+            }
+        }
         assert!(off + reclen <= cap, "the kernel never writes past the supplied window");
         unsafe {
             *(buf.add(off) as *mut u64) = 100 + idx as u64;
@@ -437,6 +447,37 @@ fn read_dir_iteration() {
     }
     kani::cover!(total == 4 && d.calls >= 3, "four entries over at least two refills");
     kani::cover!(total == 0, "empty directory");
+    kani::cover!(d.filled_window && total >= 2, "a batch that fills the 512-byte window exactly");
     assert!(seen == total, "iteration yields every entry exactly once and ends at EOF");
     core::mem::forget(dir);
+}
+
+// a record that ends exactly at the end of the slice it is parsed from
+// @ob C14 quick dirent_exact_slice fns=Dirent::try_from_bytes bound="one record, name 1..=5 arbitrary bytes, slice of exactly d_reclen bytes (and shorter slices: None or the same record, never a read outside)" timeout=900
+#[kani::proof]
+#[kani::unwind(10)]
+fn dirent_exact_slice() {
+    let mut raw = [0u8; 32];
+    let nm: [u8; 5] = kani::any();
+    let l: usize = kani::any();
+    kani::assume(l >= 1 && l <= 5);
+    let mut j = 0;
+    while j < 5 {
+        if j < l {
+            kani::assume(nm[j] != 0);
+            raw[19 + j] = nm[j];
+        }
+        j += 1;
+    }
+    let reclen = (19 + l + 1 + 7) & !7;
+    raw[16] = reclen as u8;
+    raw[18] = 8;
+    kani::cover!(l == 5, "name of 5 bytes: record of 32 bytes");
+    kani::cover!(l == 4, "name of 4 bytes: record of 24 bytes with no padding byte after the terminator");
+    let de = unsafe { rusl::platform::Dirent::try_from_bytes(&raw[..reclen]) };
+    let de = de.expect("a complete record that ends exactly at the end of the buffer is parsed");
+    assert!(de.d_reclen as usize == reclen);
+    let i: usize = kani::any();
+    kani::assume(i < l);
+    assert!(de.d_name[i] == nm[i] && de.d_name[l] == 0, "exact name");
 }
